@@ -135,10 +135,12 @@ structure LenInv (fuel : Nat) : Prop where
   eval : ∀ e st, (evalS fuel e st).2.blocks.length = st.blocks.length
   args : ∀ es st, (evalArgsS fuel es st).2.blocks.length = st.blocks.length
   call : ∀ d as st, (callS fuel d as st).2.blocks.length = st.blocks.length
+  callAgg : ∀ d c s0 as st, (callAggS fuel d c s0 as st).2.blocks.length = st.blocks.length
   bind : ∀ ps as st, (bindParamsS fuel ps as st).2.blocks.length = st.blocks.length
   stmt : ∀ s st, (stmtS fuel s st).2.blocks.length = st.blocks.length
   block : ∀ ss st, (blockS fuel ss st).2.blocks.length = st.blocks.length
   ifs : ∀ br els st, (ifS fuel br els st).2.blocks.length = st.blocks.length
+  cs : ∀ v br els st, (caseS fuel v br els st).2.blocks.length = st.blocks.length
   whl : ∀ c body st, (whileS fuel c body st).2.blocks.length = st.blocks.length
   fe : ∀ x d vals body st, (foreachS fuel x d vals body st).2.blocks.length = st.blocks.length
 
@@ -159,7 +161,7 @@ theorem inBlock_length {α} (f : St → α × St) (st : St)
   simp [St.push]
 
 theorem lenInv : ∀ fuel, LenInv fuel
-  | 0 => by constructor <;> intros <;> simp [evalS, evalArgsS, callS, bindParamsS, stmtS, blockS, ifS, whileS, foreachS]
+  | 0 => by constructor <;> intros <;> simp [evalS, evalArgsS, callS, callAggS, bindParamsS, stmtS, blockS, ifS, caseS, whileS, foreachS]
   | fuel + 1 => by
     have ih := lenInv fuel
     constructor
@@ -179,9 +181,31 @@ theorem lenInv : ∀ fuel, LenInv fuel
             split <;> grind
       | call f args =>
         simp only [evalS]
-        have := ih.args args st
+        have := ih.args
         have := ih.call
-        grind
+        have := ih.callAgg
+        split
+        · rfl
+        · split
+          · split
+            · split <;> grind
+            · rfl
+          · split
+            · rfl
+            · split
+              · split <;> grind
+              · rfl
+      | acall f s0 args =>
+        simp only [evalS]
+        have := ih.args
+        have := ih.callAgg
+        split
+        · split <;> rfl
+        · split
+          · rfl
+          · split
+            · split <;> grind
+            · rfl
     · -- args
       intro es st
       cases es with
@@ -204,6 +228,22 @@ theorem lenInv : ∀ fuel, LenInv fuel
         · grind
         · split <;> grind
       · rfl
+    · -- callAgg
+      intro d c s0 as st
+      simp only [callAggS]
+      apply inBlockWith_length
+      split
+      · have hb := ih.bind d.params as { st with blocks := ⟨[(c, .int s0)], []⟩ :: st.blocks }
+        have hk := ih.block d.body
+        generalize bindParamsS fuel d.params as { st with blocks := ⟨[(c, .int s0)], []⟩ :: st.blocks } = r at hb ⊢
+        rcases r with ⟨_ | e, s1⟩
+        · simp only []
+          have h2 := hk s1
+          generalize blockS fuel d.body s1 = q at h2 ⊢
+          rcases q with ⟨o, s2⟩
+          cases o <;> simp_all
+        · simpa using hb
+      · simp
     · -- bind
       intro ps as st
       cases ps with
@@ -274,6 +314,12 @@ theorem lenInv : ∀ fuel, LenInv fuel
         have := ih.eval e st
         split <;> grind
       | ifs br els => simp only [stmtS]; exact ih.ifs br els st
+      | caseOf e br els =>
+        simp only [stmtS]
+        have := ih.eval e st
+        have := ih.cs
+        split <;> grind
+      | raise forced => simp [stmtS]
       | «while» c body => simp only [stmtS]; exact ih.whl c body st
       | foreach x d vals body => simp only [stmtS]; exact ih.fe x d vals body st
       | inline ss => simp only [stmtS]; exact ih.block ss st
@@ -298,6 +344,12 @@ theorem lenInv : ∀ fuel, LenInv fuel
         have := ih.eval e st
         split <;> grind
       | declFn f ps body =>
+        simp only [stmtS]
+        split
+        · rfl
+        · rename_i bs hbs
+          simp [declareFn_length hbs]
+      | declAgg f c ps body =>
         simp only [stmtS]
         split
         · rfl
@@ -337,6 +389,26 @@ theorem lenInv : ∀ fuel, LenInv fuel
           · have := inBlock_length (blockS fuel body) st1 (ih.block _ _)
             grind
           · have := ih.ifs more els st1
+            grind
+    · -- case
+      intro v0 br els st
+      cases br with
+      | nil =>
+        simp only [caseS]
+        split
+        · rfl
+        · exact inBlock_length _ _ (ih.block _ _)
+      | cons cb more =>
+        obtain ⟨c, body⟩ := cb
+        simp only [caseS]
+        have := ih.eval c st
+        split
+        · grind
+        · rename_i v st1 hv
+          split
+          · have := inBlock_length (blockS fuel body) st1 (ih.block _ _)
+            grind
+          · have := ih.cs v0 more els st1
             grind
     · -- while
       intro c body st
@@ -475,6 +547,8 @@ structure InsInv (fuel : Nat) : Prop where
   eval : ∀ n e st, evalS fuel e (st.ins n) = ((evalS fuel e st).1, (evalS fuel e st).2.ins n)
   args : ∀ n es st, evalArgsS fuel es (st.ins n) = ((evalArgsS fuel es st).1, (evalArgsS fuel es st).2.ins n)
   call : ∀ n d as st, callS fuel d as (st.ins n) = ((callS fuel d as st).1, (callS fuel d as st).2.ins n)
+  callAgg : ∀ n d c s0 as st,
+    callAggS fuel d c s0 as (st.ins n) = ((callAggS fuel d c s0 as st).1, (callAggS fuel d c s0 as st).2.ins n)
   bind : ∀ n ps as st, st.blocks ≠ [] →
     bindParamsS fuel ps as (st.ins (n + 1)) = ((bindParamsS fuel ps as st).1, (bindParamsS fuel ps as st).2.ins (n + 1))
   stmt : ∀ n s st, st.blocks ≠ [] →
@@ -483,6 +557,8 @@ structure InsInv (fuel : Nat) : Prop where
     blockS fuel ss (st.ins (n + 1)) = ((blockS fuel ss st).1, (blockS fuel ss st).2.ins (n + 1))
   ifs : ∀ n br els st, st.blocks ≠ [] →
     ifS fuel br els (st.ins (n + 1)) = ((ifS fuel br els st).1, (ifS fuel br els st).2.ins (n + 1))
+  cs : ∀ n v br els st, st.blocks ≠ [] →
+    caseS fuel v br els (st.ins (n + 1)) = ((caseS fuel v br els st).1, (caseS fuel v br els st).2.ins (n + 1))
   whl : ∀ n c body st, st.blocks ≠ [] →
     whileS fuel c body (st.ins (n + 1)) = ((whileS fuel c body st).1, (whileS fuel c body st).2.ins (n + 1))
   fe : ∀ n x d vals body st, st.blocks ≠ [] →
@@ -520,7 +596,7 @@ theorem inBlockWith_ins {α} (b : Block) (f : St → α × St) (st : St) (n : Na
   simp [St.ins_pop _ n hne]
 
 theorem insInv : ∀ fuel, InsInv fuel
-  | 0 => by constructor <;> intros <;> simp [evalS, evalArgsS, callS, bindParamsS, stmtS, blockS, ifS, whileS, foreachS]
+  | 0 => by constructor <;> intros <;> simp [evalS, evalArgsS, callS, callAggS, bindParamsS, stmtS, blockS, ifS, caseS, whileS, foreachS]
   | fuel + 1 => by
     have ih := insInv fuel
     have il := lenInv fuel
@@ -553,13 +629,46 @@ theorem insInv : ∀ fuel, InsInv fuel
         | none => rfl
         | some d =>
           simp only []
-          split
-          · rw [ih.args n args st]
-            rcases evalArgsS fuel args st with ⟨_ | vs, st1⟩
+          cases d.agg with
+          | none =>
+            simp only []
+            split
+            · rw [ih.args n args st]
+              rcases evalArgsS fuel args st with ⟨_ | vs, st1⟩
+              · rfl
+              · simp only []
+                rw [ih.call n d vs st1]
             · rfl
-            · simp only []
-              rw [ih.call n d vs st1]
-          · rfl
+          | some c =>
+            simp only []
+            cases args with
+            | nil => rfl
+            | cons a rest =>
+              simp only []
+              split
+              · rw [ih.args n rest st]
+                rcases evalArgsS fuel rest st with ⟨_ | vs, st1⟩
+                · rfl
+                · simp only []
+                  rw [ih.callAgg n d c emptyPseudo vs st1]
+              · rfl
+      | acall f s0 args =>
+        simp only [evalS, St.ins_blocks, getFn_ins]
+        cases getFn f st.blocks with
+        | none => simp only []; split <;> rfl
+        | some d =>
+          simp only []
+          cases d.agg with
+          | none => rfl
+          | some c =>
+            simp only []
+            split
+            · rw [ih.args n args st]
+              rcases evalArgsS fuel args st with ⟨_ | vs, st1⟩
+              · rfl
+              · simp only []
+                rw [ih.callAgg n d c s0 vs st1]
+            · rfl
     · -- args
       intro n es st
       cases es with
@@ -590,6 +699,34 @@ theorem insInv : ∀ fuel, InsInv fuel
           · simp only []
             rw [hB] at hb
             have hne : s1.blocks ≠ [] := ne_nil_of_length_eq hb (by simp [St.push])
+            rw [ih.block n d.body s1 hne]
+            rcases blockS fuel d.body s1 with ⟨o, s2⟩
+            cases o <;> rfl
+          · rfl
+        · rfl
+    · -- callAgg
+      intro n d c s0 as st
+      simp only [callAggS]
+      apply inBlockWith_ins
+      · split
+        · have hb := il.bind d.params as { st with blocks := ⟨[(c, .int s0)], []⟩ :: st.blocks }
+          have hk := il.block d.body
+          generalize bindParamsS fuel d.params as { st with blocks := ⟨[(c, .int s0)], []⟩ :: st.blocks } = r at hb ⊢
+          rcases r with ⟨_ | e, s1⟩
+          · simp only []
+            have h2 := hk s1
+            generalize blockS fuel d.body s1 = q at h2 ⊢
+            rcases q with ⟨o, s2⟩
+            cases o <;> simp_all
+          · simpa using hb
+        · simp
+      · split
+        · rw [ih.bind n d.params as { st with blocks := ⟨[(c, .int s0)], []⟩ :: st.blocks } (by simp)]
+          have hb := il.bind d.params as { st with blocks := ⟨[(c, .int s0)], []⟩ :: st.blocks }
+          rcases hB : bindParamsS fuel d.params as { st with blocks := ⟨[(c, .int s0)], []⟩ :: st.blocks } with ⟨_ | e, s1⟩
+          · simp only []
+            rw [hB] at hb
+            have hne : s1.blocks ≠ [] := ne_nil_of_length_eq hb (by simp)
             rw [ih.block n d.body s1 hne]
             rcases blockS fuel d.body s1 with ⟨o, s2⟩
             cases o <;> rfl
@@ -663,6 +800,15 @@ theorem insInv : ∀ fuel, InsInv fuel
         rw [ih.eval (n + 1) e st]
         rcases evalS fuel e st with ⟨_ | v, st1⟩ <;> rfl
       | ifs br els => simp only [stmtS]; exact ih.ifs n br els st hne
+      | caseOf e br els =>
+        simp only [stmtS]
+        rw [ih.eval (n + 1) e st]
+        have hl := il.eval e st
+        rcases hE : evalS fuel e st with ⟨_ | v, st1⟩
+        · rfl
+        · rw [hE] at hl
+          exact ih.cs n v br els st1 (ne_nil_of_length_eq hl hne)
+      | raise forced => simp [stmtS]
       | «while» c body => simp only [stmtS]; exact ih.whl n c body st hne
       | foreach x d vals body => simp only [stmtS]; exact ih.fe n x d vals body st hne
       | inline ss => simp only [stmtS]; exact ih.block n ss st hne
@@ -685,7 +831,10 @@ theorem insInv : ∀ fuel, InsInv fuel
         rcases evalS fuel e st with ⟨_ | v, st1⟩ <;> rfl
       | declFn f ps body =>
         simp only [stmtS, St.ins_blocks, declareFn_ins _ _ n st.blocks hne]
-        cases declareFn f ⟨ps, body⟩ st.blocks <;> rfl
+        cases declareFn f ⟨ps, body, none⟩ st.blocks <;> rfl
+      | declAgg f c ps body =>
+        simp only [stmtS, St.ins_blocks, declareFn_ins _ _ n st.blocks hne]
+        cases declareFn f ⟨ps, body, some c⟩ st.blocks <;> rfl
       | disposeFn f =>
         simp only [stmtS, St.ins_blocks, disposeFn_ins]
         cases disposeFn f st.blocks <;> rfl
@@ -725,6 +874,30 @@ theorem insInv : ∀ fuel, InsInv fuel
           | T => exact inBlock_ins _ st1 (n + 1) (il.block _ _) (ih.block (n + 1) _ st1.push (by simp [St.push]))
           | F => exact ih.ifs n more els st1 hne1
           | U => exact ih.ifs n more els st1 hne1
+    · -- case
+      intro n v0 br els st hne
+      cases br with
+      | nil =>
+        simp only [caseS]
+        cases els with
+        | nil => rfl
+        | cons s ss =>
+          simp only []
+          exact inBlock_ins _ st (n + 1) (il.block _ _) (ih.block (n + 1) _ st.push (by simp [St.push]))
+      | cons cb more =>
+        obtain ⟨c, body⟩ := cb
+        simp only [caseS]
+        rw [ih.eval (n + 1) c st]
+        have hl := il.eval c st
+        rcases hE : evalS fuel c st with ⟨_ | v, st1⟩
+        · rfl
+        · rw [hE] at hl
+          have hne1 : st1.blocks ≠ [] := ne_nil_of_length_eq hl hne
+          simp only []
+          cases caseHit v0 v with
+          | T => exact inBlock_ins _ st1 (n + 1) (il.block _ _) (ih.block (n + 1) _ st1.push (by simp [St.push]))
+          | F => exact ih.cs n v0 more els st1 hne1
+          | U => exact ih.cs n v0 more els st1 hne1
     · -- while
       intro n c body st hne
       simp only [whileS]
@@ -831,10 +1004,12 @@ structure RefInv (fuel : Nat) : Prop where
   eval : ∀ e st, evalI fuel e st = evalS fuel e st
   args : ∀ es st, evalArgsI fuel es st = evalArgsS fuel es st
   call : ∀ d as st, callI fuel d as st = callS fuel d as st
+  callAgg : ∀ d c s0 as st, callAggI fuel d c s0 as st = callAggS fuel d c s0 as st
   bind : ∀ ps as st, bindParamsI fuel ps as st = bindParamsS fuel ps as st
   stmt : ∀ s rv st, Sim rv (stmtI fuel s rv st) (stmtS fuel s st)
   block : ∀ ss rv st, Sim rv (executeI fuel ss rv st) (blockS fuel ss st)
   ifs : ∀ br els rv st, Sim rv (ifI fuel br els rv st) (ifS fuel br els st)
+  cs : ∀ v br els rv st, Sim rv (caseI fuel v br els rv st) (caseS fuel v br els st)
   whl : ∀ c body rv b bs out,
     let r := whileI fuel c body rv none ⟨b :: bs, out⟩
     let p := whileS fuel c body ⟨bs, out⟩
@@ -850,10 +1025,12 @@ theorem refInv : ∀ fuel, RefInv fuel
     · intros; simp [evalI, evalS]
     · intros; simp [evalArgsI, evalArgsS]
     · intros; simp [callI, callS]
+    · intros; simp [callAggI, callAggS]
     · intros; simp [bindParamsI, bindParamsS]
     · intros; simp only [stmtI, stmtS]; exact Sim.fail _ _ _
     · intros; simp only [executeI, blockS]; exact Sim.fail _ _ _
     · intros; simp only [ifI, ifS]; exact Sim.fail _ _ _
+    · intros; simp only [caseI, caseS]; exact Sim.fail _ _ _
     · intro c body rv b bs out
       simp only [whileI, whileS]
       refine ⟨rfl, by simp [PRes.fail], rfl, rfl, (Sim.fail _ _ _).rvok⟩
@@ -871,7 +1048,8 @@ theorem refInv : ∀ fuel, RefInv fuel
       | lit v => simp [evalI, evalS]
       | var x => simp [evalI, evalS]
       | bin op a b => simp only [evalI, evalS, ih.eval]
-      | call f args => simp only [evalI, evalS, ih.args, ih.call]
+      | call f args => simp only [evalI, evalS, ih.args, ih.call, ih.callAgg]
+      | acall f s0 args => simp only [evalI, evalS, ih.args, ih.callAgg]
     · -- args
       intro es st
       cases es with
@@ -883,6 +1061,39 @@ theorem refInv : ∀ fuel, RefInv fuel
       split
       · rw [ih.bind]
         rcases bindParamsS fuel d.params as st.push with ⟨_ | e, s1⟩
+        · simp only []
+          have hsim := ih.block d.body none s1
+          rcases hB : blockS fuel d.body s1 with ⟨o, s2⟩
+          rw [hB] at hsim
+          generalize executeI fuel d.body none s1 = p at hsim
+          obtain ⟨hst, hout, hk, hs, ht⟩ := hsim
+          obtain ⟨flow, err, rv', st'⟩ := p
+          simp only at hst hout hk hs ht
+          subst hst
+          cases err with
+          | some e => simp [PRes.outcome] at hout; subst hout; rfl
+          | none =>
+            cases flow with
+            | ret =>
+              have := hs rfl rfl
+              cases rv' with
+              | none => exact absurd rfl this
+              | some v => simp [PRes.outcome] at hout; subst hout; rfl
+            | terminateWithError => exact absurd rfl (ht rfl)
+            | _ =>
+              have := hk rfl (by simp)
+              subst this
+              simp [PRes.outcome] at hout
+              subst hout
+              rfl
+        · rfl
+      · rfl
+    · -- callAgg
+      intro d c s0 as st
+      simp only [callAggI, callAggS, inBlockWith, St.push, Block.empty, declareVar, aget]
+      split
+      · rw [ih.bind]
+        rcases bindParamsS fuel d.params as { st with blocks := ⟨[(c, .int s0)], []⟩ :: st.blocks } with ⟨_ | e, s1⟩
         · simp only []
           have hsim := ih.block d.body none s1
           rcases hB : blockS fuel d.body s1 with ⟨o, s2⟩
@@ -948,6 +1159,12 @@ theorem refInv : ∀ fuel, RefInv fuel
         · exact Sim.fail _ _ _
         · exact Sim.ok _ _
       | ifs br els => simp only [stmtI, stmtS]; exact ih.ifs br els rv st
+      | caseOf e br els =>
+        simp only [stmtI, stmtS, ih.eval]
+        rcases evalS fuel e st with ⟨_ | v, st1⟩
+        · exact Sim.fail _ _ _
+        · exact ih.cs v br els rv st1
+      | raise forced => simp only [stmtI, stmtS]; exact Sim.fail _ _ _
       | «while» c body =>
         obtain ⟨blocks, out⟩ := st
         simp only [stmtI, stmtS, St.push]
@@ -999,7 +1216,12 @@ theorem refInv : ∀ fuel, RefInv fuel
         · exact ⟨rfl, rfl, ⟨by simp, by simp, by simp⟩⟩
       | declFn f ps body =>
         simp only [stmtI, stmtS]
-        cases declareFn f ⟨ps, body⟩ st.blocks with
+        cases declareFn f ⟨ps, body, none⟩ st.blocks with
+        | error e => exact Sim.fail _ _ _
+        | ok bs => exact Sim.ok _ _
+      | declAgg f c ps body =>
+        simp only [stmtI, stmtS]
+        cases declareFn f ⟨ps, body, some c⟩ st.blocks with
         | error e => exact Sim.fail _ _ _
         | ok bs => exact Sim.ok _ _
       | disposeFn f =>
@@ -1067,6 +1289,26 @@ theorem refInv : ∀ fuel, RefInv fuel
           | T => simp only [inBlock]; exact Sim.child (ih.block body none st1.push)
           | F => exact ih.ifs more els rv st1
           | U => exact ih.ifs more els rv st1
+    · -- case
+      intro v0 br els rv st
+      cases br with
+      | nil =>
+        simp only [caseI, caseS]
+        cases els with
+        | nil => exact Sim.ok _ _
+        | cons s ss =>
+          simp only [inBlock]
+          exact Sim.child (ih.block (s :: ss) none st.push)
+      | cons cb more =>
+        obtain ⟨c, body⟩ := cb
+        simp only [caseI, caseS, ih.eval]
+        rcases evalS fuel c st with ⟨_ | v, st1⟩
+        · exact Sim.fail _ _ _
+        · simp only []
+          cases caseHit v0 v with
+          | T => simp only [inBlock]; exact Sim.child (ih.block body none st1.push)
+          | F => exact ih.cs v0 more els rv st1
+          | U => exact ih.cs v0 more els rv st1
     · -- while
       intro c body rv b bs out
       simp only [whileI, whileS, St.clearCurrent]
@@ -1430,10 +1672,12 @@ structure LeInv (fuel : Nat) : Prop where
   eval : ∀ e st, StackLE (evalS fuel e st).2.blocks st.blocks
   args : ∀ es st, StackLE (evalArgsS fuel es st).2.blocks st.blocks
   call : ∀ d as st, StackLE (callS fuel d as st).2.blocks st.blocks
+  callAgg : ∀ d c s0 as st, StackLE (callAggS fuel d c s0 as st).2.blocks st.blocks
   bind : ∀ ps as st, StackLE (bindParamsS fuel ps as st).2.blocks.tail st.blocks.tail
   stmt : ∀ s st, StackLE (stmtS fuel s st).2.blocks.tail st.blocks.tail
   block : ∀ ss st, StackLE (blockS fuel ss st).2.blocks.tail st.blocks.tail
   ifs : ∀ br els st, StackLE (ifS fuel br els st).2.blocks st.blocks
+  cs : ∀ v br els st, StackLE (caseS fuel v br els st).2.blocks st.blocks
   whl : ∀ c body st, StackLE (whileS fuel c body st).2.blocks st.blocks
   fe : ∀ x d vals body st, StackLE (foreachS fuel x d vals body st).2.blocks st.blocks
 
@@ -1452,7 +1696,7 @@ theorem inBlock_le {α} (f : St → α × St) (st : St)
 theorem leInv : ∀ fuel, LeInv fuel
   | 0 => by
     constructor <;> intros <;>
-      simp only [evalS, evalArgsS, callS, bindParamsS, stmtS, blockS, ifS, whileS, foreachS] <;> exact StackLE.refl _
+      simp only [evalS, evalArgsS, callS, callAggS, bindParamsS, stmtS, blockS, ifS, caseS, whileS, foreachS] <;> exact StackLE.refl _
   | fuel + 1 => by
     have ih := leInv fuel
     constructor
@@ -1485,13 +1729,46 @@ theorem leInv : ∀ fuel, LeInv fuel
         | none => exact StackLE.refl _
         | some d =>
           simp only []
-          split
-          · have h1 := ih.args args st
-            generalize evalArgsS fuel args st = r at h1 ⊢
-            rcases r with ⟨_ | vs, st1⟩
-            · exact h1
-            · exact (ih.call d vs st1).trans h1
-          · exact StackLE.refl _
+          cases d.agg with
+          | none =>
+            simp only []
+            split
+            · have h1 := ih.args args st
+              generalize evalArgsS fuel args st = r at h1 ⊢
+              rcases r with ⟨_ | vs, st1⟩
+              · exact h1
+              · exact (ih.call d vs st1).trans h1
+            · exact StackLE.refl _
+          | some c =>
+            simp only []
+            cases args with
+            | nil => exact StackLE.refl _
+            | cons a rest =>
+              simp only []
+              split
+              · have h1 := ih.args rest st
+                generalize evalArgsS fuel rest st = r at h1 ⊢
+                rcases r with ⟨_ | vs, st1⟩
+                · exact h1
+                · exact (ih.callAgg d c emptyPseudo vs st1).trans h1
+              · exact StackLE.refl _
+      | acall f s0 args =>
+        simp only [evalS]
+        cases getFn f st.blocks with
+        | none => simp only []; split <;> exact StackLE.refl _
+        | some d =>
+          simp only []
+          cases d.agg with
+          | none => exact StackLE.refl _
+          | some c =>
+            simp only []
+            split
+            · have h1 := ih.args args st
+              generalize evalArgsS fuel args st = r at h1 ⊢
+              rcases r with ⟨_ | vs, st1⟩
+              · exact h1
+              · exact (ih.callAgg d c s0 vs st1).trans h1
+            · exact StackLE.refl _
     · -- args
       intro es st
       cases es with
@@ -1513,6 +1790,21 @@ theorem leInv : ∀ fuel, LeInv fuel
       split
       · have h1 := ih.bind d.params as st.push
         generalize bindParamsS fuel d.params as st.push = r at h1 ⊢
+        rcases r with ⟨_ | e, s1⟩
+        · simp only []
+          have h2 := ih.block d.body s1
+          generalize blockS fuel d.body s1 = r at h2 ⊢
+          rcases r with ⟨o, s2⟩
+          cases o <;> exact h2.trans h1
+        · exact h1
+      · exact StackLE.refl _
+    · -- callAgg
+      intro d c s0 as st
+      simp only [callAggS]
+      apply inBlockWith_le
+      split
+      · have h1 := ih.bind d.params as { st with blocks := ⟨[(c, .int s0)], []⟩ :: st.blocks }
+        generalize bindParamsS fuel d.params as { st with blocks := ⟨[(c, .int s0)], []⟩ :: st.blocks } = r at h1 ⊢
         rcases r with ⟨_ | e, s1⟩
         · simp only []
           have h2 := ih.block d.body s1
@@ -1596,6 +1888,14 @@ theorem leInv : ∀ fuel, LeInv fuel
         generalize evalS fuel e st = r at h1 ⊢
         rcases r with ⟨_ | v, st1⟩ <;> exact h1
       | ifs br els => simp only [stmtS]; exact (ih.ifs br els st).tail
+      | caseOf e br els =>
+        simp only [stmtS]
+        have h1 := (ih.eval e st).tail
+        generalize evalS fuel e st = r at h1 ⊢
+        rcases r with ⟨_ | v, st1⟩
+        · exact h1
+        · exact (ih.cs v br els st1).tail.trans h1
+      | raise forced => simp only [stmtS]; exact StackLE.refl _
       | «while» c body => simp only [stmtS]; exact (ih.whl c body st).tail
       | foreach x d vals body => simp only [stmtS]; exact (ih.fe x d vals body st).tail
       | inline ss => simp only [stmtS]; exact ih.block ss st
@@ -1623,7 +1923,12 @@ theorem leInv : ∀ fuel, LeInv fuel
         rcases r with ⟨_ | v, st1⟩ <;> exact h1
       | declFn f ps body =>
         simp only [stmtS]
-        cases hd : declareFn f ⟨ps, body⟩ st.blocks with
+        cases hd : declareFn f ⟨ps, body, none⟩ st.blocks with
+        | error e => exact StackLE.refl _
+        | ok bs => simp only [declareFn_tail hd]; exact StackLE.refl _
+      | declAgg f c ps body =>
+        simp only [stmtS]
+        cases hd : declareFn f ⟨ps, body, some c⟩ st.blocks with
         | error e => exact StackLE.refl _
         | ok bs => simp only [declareFn_tail hd]; exact StackLE.refl _
       | disposeFn f =>
@@ -1661,6 +1966,26 @@ theorem leInv : ∀ fuel, LeInv fuel
           | T => exact (inBlock_le _ _ (ih.block body st1.push)).trans h1
           | F => exact (ih.ifs more els st1).trans h1
           | U => exact (ih.ifs more els st1).trans h1
+    · -- case
+      intro v0 br els st
+      cases br with
+      | nil =>
+        simp only [caseS]
+        cases els with
+        | nil => exact StackLE.refl _
+        | cons s ss => exact inBlock_le _ _ (ih.block _ _)
+      | cons cb more =>
+        obtain ⟨c, body⟩ := cb
+        simp only [caseS]
+        have h1 := ih.eval c st
+        generalize evalS fuel c st = r at h1 ⊢
+        rcases r with ⟨_ | v, st1⟩
+        · exact h1
+        · simp only []
+          cases caseHit v0 v with
+          | T => exact (inBlock_le _ _ (ih.block body st1.push)).trans h1
+          | F => exact (ih.cs v0 more els st1).trans h1
+          | U => exact (ih.cs v0 more els st1).trans h1
     · -- while
       intro c body st
       simp only [whileS]
